@@ -199,8 +199,20 @@ func drawProgram(t *rapid.T) *program {
 			// the syntax error sits in a file that also holds derive calls (after them): whatever happens to
 			// the calls, a file that does not parse cannot be reprinted from its syntax tree
 			k := fmt.Sprintf("p/f%d.go", rapid.IntRange(0, nfiles-1).Draw(t, "syntax-file"))
-			pr.files[k] += "\nfunc zsyntaxIn( {\n}\n\nfunc After() int { return 1 }\n"
-			pr.desc = append(pr.desc, "syntax-error-in-"+k)
+			// several kinds of syntax error: the parser marks some with a Bad node in its partial tree and silently
+			// drops tokens for others ("expected ';', found extra" skips to the next statement)
+			kinds := []string{
+				"\nfunc zsyntaxIn( {\n}\n",
+				"\nfunc zmissingOp(total, extra int) int {\n\tsum := total extra\n\tprintln(\"sum\", sum)\n\treturn sum\n}\n",
+				"\nfunc ztwoCalls() int {\n\tx := len(\"a\") len(\"b\")\n\tprintln(x)\n\treturn x\n}\n",
+				"\nfunc zbadExpr() int {\n\treturn 1 +\n}\n",
+				"\nfunc zstray() {\n}\n}\n",
+				"\nfunc zkeyword() {\n\tvar func = 1\n\t_ = 2\n}\n",
+				"\nvar zlit = []int{1, 2 3}\n",
+			}
+			ki := rapid.IntRange(0, len(kinds)-1).Draw(t, "syntax-kind")
+			pr.files[k] += kinds[ki] + "\n// After is kept.\nfunc After() int { return 1 }\n"
+			pr.desc = append(pr.desc, fmt.Sprintf("syntax-error-%d-in-%s", ki, k))
 		} else {
 			pr.files["p/zsyntax.go"] = "package p\n\nfunc zsyntax( {\n"
 		}
